@@ -350,6 +350,12 @@ def pipelined_scenarios(tier):
             for cut in (1, 4, 8, 12, 15, 16, 17, 24):
                 for between in (1, 0):
                     yield {'pipelined': [pad, big, cut, between]}
+    # M1 carries NO descriptor and is cut; the rest of it and the descriptor-carrying M2 are in the socket together when
+    # the bus reads next (the read that completes M1 must not swallow M2's first byte without its descriptors)
+    for pad in (0, 5):
+        for big in (0, 3000):
+            for cut in (1, 16, 17, 'mid', 'late'):
+                yield {'pipelined': [pad, big, cut, 1, 'plain-first']}
 
 
 def task_pipelined(scns):
@@ -358,18 +364,21 @@ def task_pipelined(scns):
     for scn in scns:
         pad, big, cut = scn['pipelined'][:3]
         between = scn['pipelined'][3] if len(scn['pipelined']) > 3 else 0
+        plain_first = len(scn['pipelined']) > 4
         try:
             s_ = Session({'small': True})
             c, cg = s_.slots['F'], s_.slots['G']
 
-            def mk(tok, body_extra):
+            def mk(tok, body_extra, with_fd=True):
                 ser = s_.bus.next_serial(c)
-                fields = [(R.F_PATH, (b'o', b'/f')), (R.F_INTERFACE, (b's', b'f.i')), (R.F_MEMBER, (b's', b'Take')), (R.F_DESTINATION, (b's', G_NAME)), (R.F_UNIX_FDS, (b'u', 1))]
-                return R.encode_message(R.Msg(R.MT_CALL, 1, ser, fields, [R.S(tok + 'x' * body_extra), R.H(0)]))
-            m1 = mk('P1', pad + big)
+                fields = [(R.F_PATH, (b'o', b'/f')), (R.F_INTERFACE, (b's', b'f.i')), (R.F_MEMBER, (b's', b'Take')), (R.F_DESTINATION, (b's', G_NAME))]
+                if with_fd:
+                    fields.append((R.F_UNIX_FDS, (b'u', 1)))
+                return R.encode_message(R.Msg(R.MT_CALL, 1, ser, fields, [R.S(tok + 'x' * body_extra)] + ([R.H(0)] if with_fd else [])))
+            m1 = mk('P1', pad + big, with_fd=not plain_first)
             m2 = mk('P2', 3)
             k = {'early': 20, 'late': len(m1) - 5, 'mid': len(m1) // 2}[cut] if isinstance(cut, str) else cut
-            s_.bus.h.cmd('SEND %d %s 0' % (c, m1[:k].hex()))
+            s_.bus.h.cmd('SEND %d %s%s' % (c, m1[:k].hex(), '' if plain_first else ' 0'))
             if between:
                 s_.bus.pump()
             s_.bus.h.cmd('SEND %d %s' % (c, m1[k:].hex()))
@@ -385,7 +394,7 @@ def task_pipelined(scns):
                         got_fds += rv.fds
                         toks += [m_.body[0][1][:2] for m_, _ in rv.msgs if m_.member == b'Take']
             n += 1
-            want = [s_.fdid[0], s_.fdid[1]]
+            want = [s_.fdid[0], s_.fdid[1]] if not plain_first else [s_.fdid[1]]
             if toks != [b'P1', b'P2'] or got_fds != want:
                 out.append(Violation('fd-identity' if toks == [b'P1', b'P2'] else 'fd-message-not-delivered', 'pipelined',
                                      'M1 (%d bytes, split %s) and M2 written back to back, one descriptor each: the recipient got messages %r with descriptors %r, expected both with %r; sender disconnected: %s' %
